@@ -108,7 +108,22 @@ def run_property(pid, tier, seed, verbose=False):
   p = Proof(pid, tier, seed)
   ev_path = os.path.join(VERIF, 'evidence', f'{pid}.json')
   try:
-    mod.build(p)
+    try:
+      mod.build(p)
+    except Undecided:
+      raise
+    except Exception as e:   # pylint: disable=broad-except
+      # A proof script failing on a tree whose functions differ from the pinned ones lost its binding to the code
+      # (renamed local, changed shape of a value): that is "cannot be brought under contract", not a checker bug.
+      pinned0 = load_pinned(pid)
+      pinned_sha = {f['function']: f['sha256_16'] for f in (pinned0 or {}).get('functions', [])}
+      changed = [ex.path for ex in p.functions.values() if pinned_sha.get(ex.path) not in (None, ex.sha)]
+      if not changed:
+        raise
+      import traceback as _tb
+      where = _tb.extract_tb(e.__traceback__)[-1]
+      raise Undecided(f'contract binding lost on changed function(s) {changed[:3]}: {type(e).__name__}: {e} '
+                      f'({os.path.basename(where.filename)}:{where.lineno})')
   except Undecided as e:
     # The generator cannot bring the current source under contract (outside the
     # subset / binding lost).  Nothing is proved.  A violation needs a replayed
